@@ -177,7 +177,32 @@ class TocDevice(sd.Device):
             if self.manual == k:
                 self.bag.append(pk)
                 return
-        super().downlink(link, pk)
+        self._downlink(link, pk)
+
+    def _downlink(self, link, pk):
+        """Device.downlink, safe against flush_held() running in another virtual thread: the due
+        packets leave `held` before the first yield point (queue.put inside _deliver)"""
+        if link is None or link is not self.link:
+            return
+        self.down_n += 1
+        acts = self.faults.downlink(self, self.down_n, pk)
+        due = []
+        for h in list(self.held):
+            h[0] -= 1
+            if h[0] <= 0:
+                due.append(h)
+        for h in due:
+            self.held.remove(h)
+        for a in acts:
+            if isinstance(a, tuple) and a[0] == 'hold':
+                self.held.append([a[1], pk])
+        for a in acts:
+            if a == 'deliver':
+                self._deliver(link, pk, 'deliver')
+            elif a == 'dup':
+                self._deliver(link, pk, 'dup')
+        for h in due:
+            self._deliver(link, h[1], 'late')
 
     def _deliver(self, link, pk, how):
         if how == 'dup':
